@@ -505,6 +505,60 @@ func checkC10(w *World) {
 			w.check(P, "R10.4", "position written to an existing cursor in "+fn.Name(), st.Pos(), fresh, "the value is "+why+" (it must be the running counter advanced by at least one: the counter's current value is the position of the node created last, here the element itself)")
 		})
 	})
+	// the counter is threaded: a helper that takes the running position and returns the advanced one must have its
+	// result used (dropping it re-issues the positions the helper handed out)
+	w.forAllFuncs("store", func(fn *ssa.Function) {
+		allInstrs(fn, func(in ssa.Instruction) {
+			c, ok := in.(*ssa.Call)
+			if !ok {
+				return
+			}
+			sc := staticCallee(c)
+			if sc == nil || fnPkgKey(sc) != "store" || sc.Signature.Results().Len() == 0 {
+				return
+			}
+			res := sc.Signature.Results()
+			last := res.At(res.Len() - 1).Type()
+			if b, isB := last.Underlying().(*types.Basic); !isB || b.Kind() != types.Int {
+				return
+			}
+			takesInt := false
+			for _, p := range sc.Params {
+				if b, isB := p.Type().Underlying().(*types.Basic); isB && b.Kind() == types.Int {
+					takesInt = true
+				}
+			}
+			if !takesInt {
+				return
+			}
+			if _, isCtor := sf.Ctors[sc]; isCtor {
+				return
+			}
+			// does the helper hand out positions at all?
+			hands := false
+			for g := range staticReach(sc, func(x *ssa.Function) bool { return fnPkgKey(x) == "store" }) {
+				if _, isCtor := sf.Ctors[g]; isCtor {
+					hands = true
+				}
+			}
+			if !hands {
+				return
+			}
+			used := false
+			for _, rr := range referrers(c) {
+				switch x := rr.(type) {
+				case *ssa.Extract:
+					if x.Index == res.Len()-1 && len(referrers(x)) > 0 {
+						used = true
+					}
+				case *ssa.DebugRef:
+				default:
+					used = true
+				}
+			}
+			w.check(P, "R10.4", fmt.Sprintf("advanced position returned by %s to %s", sc.Name(), fn.Name()), c.Pos(), used, fmt.Sprintf("the caller continues with the position the helper returns: %v (a dropped result makes the next node reuse positions the helper already gave to the nodes it created)", used))
+		})
+	})
 	w.floorSites(P, "R10.4", 5)
 
 	// R10.5 parent = owner, kind -> list
